@@ -3,6 +3,7 @@ package chord
 import (
 	"context"
 	"errors"
+	"sync"
 
 	"go.miragespace.co/specter/spec/chord"
 	"go.miragespace.co/specter/spec/protocol"
@@ -140,6 +141,60 @@ func ZZ_C08_Join() {
 	node.predecessorMu.Unlock()
 	if err != nil {
 		rt.Assert(node.state.Get() == st, "state-unchanged-by-refusal")
+	}
+	rt.Reach("end")
+}
+
+// ZZ_C08_JoinVsPredecessorDrop: a join request races the predecessor check that discovers the predecessor dead and
+// drops it (all interleavings at lock and atomic operations within the preemption bound). Whatever the order, the
+// request must be answered with a hand-off or a retryable refusal — never a crash — and a refusal leaves the node Active.
+func ZZ_C08_JoinVsPredecessorDrop() {
+	N := rt.Bound("N")
+	n := 2 + rt.Choose("members", N-1)
+	ring := zzNewRing(n)
+	jid := rt.U64("joiner")
+	rt.Assume(jid < zzM)
+	for i := 0; i < n; i++ {
+		rt.Assume(jid != ring.ids[i])
+	}
+	kv := &zzFailKV{keys: 0}
+	node := zzBareNode(ring.ids[0], chord.Active, kv)
+	zzWire(node, ring)
+	joins := new(int)
+	for _, s := range node.successors {
+		if zs, ok := s.(*zzStub); ok {
+			zs.joinCalls = joins
+		}
+	}
+	if zs, ok := node.predecessor.(*zzStub); ok {
+		zs.joinCalls = joins
+		zs.pingErr = zzKVFail // the predecessor has died: its next ping fails
+	}
+	imported := new(int)
+	joiner := &zzJoiner{zzStub: zzStub{id: jid, ring: ring}, imported: imported}
+
+	var wg sync.WaitGroup
+	var err error
+	var pre chord.VNode
+	wg.Add(2)
+	go func() {
+		defer wg.Done()
+		pre, _, err = node.RequestToJoin(joiner)
+	}()
+	go func() {
+		defer wg.Done()
+		node.checkPredecessor()
+	}()
+	wg.Wait()
+	if err == nil {
+		if *joins == 0 {
+			rt.Assert(pre != nil, "hand-off-names-a-predecessor")
+			rt.Reach("handed-off-before-the-drop")
+		}
+	} else {
+		rt.Assert(chord.ErrorIsRetryable(err), "refusal-of-a-valid-joiner-is-retryable")
+		rt.Assert(node.state.Get() == chord.Active, "state-restored-after-refusal")
+		rt.Reach("refused-after-the-drop")
 	}
 	rt.Reach("end")
 }
